@@ -5,7 +5,8 @@ LEVEL = "other"
 EXPLANATION = ("Structure of the certificate bookkeeping on every path: every send is paired with the tracking append of the same object and the "
                "reconstruction ranges over exactly the tracked lists (R-PAIR); both back-ends track each sent object once and the base class aligns "
                "multiplier k+1 with tracked object k (R-TRACK); symbolic producer/consumer equation between the solver constraints an object emits and "
-               "the slots the cvxpy recovery skips (R-SLOTS); sign parity of the Lagrangian across the reconstruction and the MOSEK dual transformation "
+               "the slots the cvxpy recovery skips (R-SLOTS); the proof reconstruction unrolled on an abstract solved model and compared, in an exact "
+               "vector-space calculus, with objective + <R, G> + sum <D, M> - sum l e, together with the MOSEK dual transformation "
                "(R-SIGN); dual mode returns the constant of the identity (R-RET); every LMI whose entry-equality multipliers are dropped is symmetric as "
                "written (R-LMIDUAL)."
                ' Also: the residual comes from the single capture before any dimension reduction (R-ORDER), every tracked object contributes to the reconstruction, the dictionary helpers the constant is read through are interpreted per key class, and each back-end hands the solver the constraint as written -- translation compared with zero, no rescaling -- so that the multiplier reported by the solver is the multiplier of the constraint in the identity (R-SENSE).')
